@@ -287,7 +287,8 @@ class PlanSuite(PipeSuite):
                  ("malformed", ["--gen", "malformed", "--count", "250", "--seed", s], {}),
                  ("funnel", ["--gen", "funnel", "--count", "250", "--seed", s], {}),
                  ("chain", ["--gen", "chain", "--count", "150", "--seed", s], {}),
-                 ("recover: ill-formed registrations caught, the same builder used on", ["--gen", "recover", "--count", "300", "--seed", s], {})]
+                 ("recover: ill-formed registrations caught, the same builder used on", ["--gen", "recover", "--count", "300", "--seed", s], {}),
+                 ("widestage: one stage of 60-90 groups, then systems conflicting with / depending on one of them", ["--gen", "widestage", "--count", "12", "--seed", s], {})]
         elif tier == "thorough":
             g = [("exhaustive<=3sys full", ["--gen", "exh", "--count", "1", "--seed", s], {}),
                  ("random", ["--gen", "random", "--count", "30000", "--seed", s], {}),
@@ -295,6 +296,7 @@ class PlanSuite(PipeSuite):
                  ("funnel", ["--gen", "funnel", "--count", "6000", "--seed", s], {}),
                  ("chain", ["--gen", "chain", "--count", "3000", "--seed", s], {}),
                  ("recover: ill-formed registrations caught, the same builder used on", ["--gen", "recover", "--count", "8000", "--seed", s], {}),
+                 ("widestage: one stage of 60-90 groups, then systems conflicting with / depending on one of them", ["--gen", "widestage", "--count", "300", "--seed", s], {}),
                  ("random(release build)", ["--gen", "random", "--count", "6000", "--seed", str(seed + 1)], {"release": True}),
                  ("funnel(release build)", ["--gen", "funnel", "--count", "3000", "--seed", str(seed + 1)], {"release": True})]
             if not os.path.exists(C.harness_bin(True, True)):
@@ -305,6 +307,7 @@ class PlanSuite(PipeSuite):
                  ("search:funnel", ["--gen", "funnel", "--count", "1200", "--seed", s], {}),
                  ("search:chain", ["--gen", "chain", "--count", "800", "--seed", s], {}),
                  ("search:recover", ["--gen", "recover", "--count", "1500", "--seed", s], {}),
+                 ("search:widestage", ["--gen", "widestage", "--count", "60", "--seed", s], {}),
                  ("search:exhaustive<=3sys stride4", ["--gen", "exh", "--count", "4", "--seed", s], {})]
         # the sequential fall-backs of the crate built without the `parallel` feature (plans must be the same: C19; barriers,
         # dependencies, exactly-once, the printed plan hold there too)
@@ -517,9 +520,9 @@ class PoolSuite(PipeSuite):
     def gens(self, tier, seed, sspec):
         s = str(seed)
         if tier == "thorough":
-            return [("widths 2..16 x {user pool = width, user pool 16, default pool, batch-inner, async, called from a worker of a foreign pool, default pool shared with a narrow batch, user pool attached after the batch was registered, async dispatch+wait called from a worker of a foreign pool, async dispatch twice then wait, default pool driven from a worker of a foreign pool (sync and async), a batch that also holds a nested batch, a stage two batches deep (user pool on the outermost builder only)} x 25 dispatches", ["--gen", "all", "--count", "25", "--seed", s], {"shards": 2})]
+            return [("widths 2..16 x {user pool = width, user pool 16, default pool, batch-inner, async, called from a worker of a foreign pool, default pool shared with a narrow batch, user pool attached after the batch was registered, async dispatch+wait called from a worker of a foreign pool, async dispatch twice then wait, default pool driven from a worker of a foreign pool (sync and async), a batch that also holds a nested batch, a stage two batches deep (user pool on the outermost builder only), a batch under an outer dispatch_seq, after a panic caught in a sequential dispatch} x 25 dispatches", ["--gen", "all", "--count", "25", "--seed", s], {"shards": 2})]
         if tier == "quick":
-            return [("widths 2..16 x {user pool = width, user pool 16, default pool, batch-inner, async, called from a worker of a foreign pool, default pool shared with a narrow batch, user pool attached after the batch was registered, async dispatch+wait called from a worker of a foreign pool, async dispatch twice then wait, default pool driven from a worker of a foreign pool (sync and async), a batch that also holds a nested batch, a stage two batches deep (user pool on the outermost builder only)} x 3 dispatches", ["--gen", "all", "--count", "3", "--seed", s], {"shards": 2})]
+            return [("widths 2..16 x {user pool = width, user pool 16, default pool, batch-inner, async, called from a worker of a foreign pool, default pool shared with a narrow batch, user pool attached after the batch was registered, async dispatch+wait called from a worker of a foreign pool, async dispatch twice then wait, default pool driven from a worker of a foreign pool (sync and async), a batch that also holds a nested batch, a stage two batches deep (user pool on the outermost builder only), a batch under an outer dispatch_seq, after a panic caught in a sequential dispatch} x 3 dispatches", ["--gen", "all", "--count", "3", "--seed", s], {"shards": 2})]
         return [("search: widths 2,3,5 x all configurations x 6 dispatches", ["--gen", "small", "--count", "6", "--seed", s], {"shards": 2})]
 
 
